@@ -150,7 +150,11 @@ impl Auth {
         key: Key,
         input: &Input,
     ) -> Result<(), Error> {
-        crypto_auth_verify(other_mac.as_array(), input.as_slice(), key.as_array())
+        crypto_auth_verify(
+            received_array(other_mac, "mac")?,
+            input.as_slice(),
+            key.as_array(),
+        )
     }
 
     /// Returns a new secret-key authenticator for `key`. The `key` is
@@ -187,10 +191,10 @@ impl Auth {
         self,
         other_mac: &OtherMac,
     ) -> Result<(), Error> {
+        let other_mac = received_array(other_mac, "mac")?;
         let computed_mac: Mac = self.finalize();
 
         if other_mac
-            .as_array()
             .ct_eq(computed_mac.as_array())
             .unwrap_u8()
             == 1
